@@ -57,7 +57,7 @@ SEP = ' | '
 _KW_MACROS = 'ka kb kc kd ke kv kw kr'.split()
 
 
-def _build_kw():
+def _build_kw(freeze=True):
     """arguments obtained from get_standard_argument_parser WITH keywords (tuple cache keys)"""
     from pylatexenc.macrospec import LatexContextDb, MacroSpec, EnvironmentSpec
     from pylatexenc.latexnodes import LatexArgumentSpec, ParsingStateDeltaEnterMathMode
@@ -76,11 +76,12 @@ def _build_kw():
     ], environments=[EnvironmentSpec('kenv', [A(G('[', allow_pre_space=False)), A('{')])])
     db.set_unknown_macro_spec(MacroSpec(''))
     db.set_unknown_environment_spec(EnvironmentSpec(''))
-    db.freeze()
+    if freeze:
+        db.freeze()
     return {'c9kw': db}
 
 
-def _build_obj():
+def _build_obj(freeze=True):
     """two databases sharing explicit LatexStandardArgumentParser objects"""
     from pylatexenc.macrospec import LatexContextDb, MacroSpec, EnvironmentSpec, SpecialsSpec
     from pylatexenc.latexnodes import LatexArgumentSpec as A
@@ -98,7 +99,8 @@ def _build_obj():
         MacroSpec('os', [A(o4), A(o2)]),
     ], specials=[SpecialsSpec('!', [A(o1)])])
     db.set_unknown_macro_spec(MacroSpec(''))
-    db.freeze()
+    if freeze:
+        db.freeze()
     db2 = LatexContextDb()
     db2.add_context_category('obj2', macros=[
         MacroSpec('ov', [A(o3), A(o1)]),          # same name, other signature, same objects
@@ -106,24 +108,27 @@ def _build_obj():
     ])
     db2.set_unknown_macro_spec(MacroSpec(''))
     db2.set_unknown_environment_spec(EnvironmentSpec(''))
-    db2.freeze()
+    if freeze:
+        db2.freeze()
     return {'c9obj': db, 'c9obj2': db2}
 
 
-def _build_bad():
+def _build_bad(freeze=True):
     from pylatexenc.macrospec import LatexContextDb, MacroSpec
     db = LatexContextDb()
     db.add_context_category('bad', macros=[MacroSpec('bad', ['q']), MacroSpec('bt', ['{', 't']),
                                            MacroSpec('ok', ['{'])])
     db.set_unknown_macro_spec(MacroSpec(''))
-    db.freeze()
+    if freeze:
+        db.freeze()
     return {'c9bad': db}
 
 
-def _build_default():
+def _build_default(freeze=True):
     from pylatexenc.latexwalker import get_default_latex_context_db
     db = get_default_latex_context_db()
-    db.freeze()
+    if freeze:
+        db.freeze()
     return {'default': db}
 
 
@@ -132,11 +137,11 @@ _FAMILIES = {'c9kw': _build_kw, 'c9obj': _build_obj, 'c9obj2': _build_obj, 'c9ba
 _shared = {}
 
 
-def build_family(name):
-    """a NEW family of databases containing [name]"""
+def build_family(name, freeze=True):
+    """a NEW family of databases containing [name]; freeze=False leaves freezing to LatexWalker.__init__"""
     if name in ('custom', 'custom-nofallback', 'bare'):
         raise ValueError('docgen contexts are only used shared')
-    return _FAMILIES[name]()
+    return _FAMILIES[name](freeze)
 
 
 def shared_db(name):
@@ -383,7 +388,7 @@ def gen_cases(seed, tier):
                           {'ctx': 'c9obj2', 's': '\\ov{a{b}c}[o]d', 'tolerant': False, 'db': 'shared'},
                           {'ctx': 'c9kw', 's': '\\kv{a{b}c}d', 'tolerant': False, 'db': 'shared'}], 'corpus'))
     # all orderings of small sets
-    nsets = 14 if quick else 120
+    nsets = 36 if quick else 600
     for grp in GROUPS:
         for _ in range(nsets):
             n = rnd.choice([2, 3, 3])
@@ -400,7 +405,7 @@ def gen_cases(seed, tier):
                 seen.add(key)
                 cases.append(mk_case([dict(jobs[i]) for i in perm], 'orderings'))
     # random interleavings
-    nint = 40 if quick else 600
+    nint = 110 if quick else 3000
     for grp in GROUPS:
         for _ in range(nint):
             n = rnd.randint(2, 5)
@@ -420,7 +425,7 @@ def job_db(j):
     if j.get('db', 'shared') == 'fresh':
         if j['ctx'] == 'default':
             return None
-        return build_family(j['ctx'])[j['ctx']]
+        return build_family(j['ctx'], freeze=False)[j['ctx']]     # the walker freezes it
     return shared_db(j['ctx'])
 
 
@@ -463,16 +468,12 @@ def _stop_server(p, pid):
             pass
 
 
-def fresh_result(j):
-    """the dump of job j run as the only parse of a pristine interpreter state"""
+def _ask(req):
     global _srv_n
-    key = (j['ctx'], j['s'], j['tolerant'])
-    if key in _fresh_memo:
-        return _fresh_memo[key]
     srv = _server()
     _srv_n += 1
     rid = '%d.%d' % (os.getpid(), _srv_n)
-    srv.stdin.write(json.dumps({'id': rid, 'job': {'ctx': j['ctx'], 's': j['s'], 'tolerant': j['tolerant']}}) + '\n')
+    srv.stdin.write(json.dumps(dict(req, id=rid)) + '\n')
     srv.stdin.flush()
     while True:
         line = srv.stdout.readline()
@@ -480,9 +481,20 @@ def fresh_result(j):
             raise RuntimeError('pristine server died')
         r = json.loads(line)
         if r['id'] == rid:                 # answers to requests abandoned by a timeout are skipped
-            break
-    _fresh_memo[key] = r['out']
-    return r['out']
+            return r['out']
+
+
+def fresh_result(j):
+    """the dump of job j run as the only parse of a pristine interpreter state"""
+    key = (j['ctx'], j['s'], j['tolerant'])
+    if key not in _fresh_memo:
+        _fresh_memo[key] = _ask({'job': {'ctx': j['ctx'], 's': j['s'], 'tolerant': j['tolerant']}})
+    return _fresh_memo[key]
+
+
+def fresh_history(jobs):
+    """the whole history run in one child of the pristine interpreter -> list of dumps"""
+    return _ask({'history': jobs}).split('\x1f')
 
 
 # ---------------------------------------------------------------------------
@@ -596,10 +608,12 @@ def oracle(c):
     before = {n: fingerprint(db) for n, db in shared}
     frozen_before = {n: db.frozen for n, db in shared}
     wires_before = {n: json.dumps(spell_wire_of(db)) for n, db in shared}
+    # instances already off their invariant when this history starts were reported by the history that did it
+    already = {id(p) for w, k, p in std_instances(shared) if check_instance(w, k, p)}
     results = []
     for ji, j in enumerate(jobs):
         db = job_db(j)                                    # building a database is not parsing
-        own = None if j.get('db', 'shared') == 'shared' or db is None else fingerprint(db)
+        own = None if j.get('db', 'shared') == 'shared' or db is None else _unfrozen(fingerprint(db))
         keys0 = list(cache.keys())
         vals0 = [cache[k] for k in keys0]
         out = run_job(j, db)
@@ -611,15 +625,25 @@ def oracle(c):
         if any(not isinstance(k, str) for k in new):
             return ('cache-key-added-by-parsing-is-not-a-spec-string', {'job': ji, 'new_keys': list(map(repr, new))})
         if own is not None:
-            d = _first_diff(own, fingerprint(db))
+            d = _first_diff(own, _unfrozen(fingerprint(db)))
             if d:
                 return ('context-database-modified-by-parse', {'job': ji, 'ctx': j['ctx'], 'diff': d})
+            if not db.frozen:
+                return ('context-database-not-frozen-by-walker', {'job': ji, 'ctx': j['ctx']})
     # (a) every result equals the result in a pristine interpreter
     for ji, (j, out) in enumerate(zip(jobs, results)):
         fr = fresh_result(j)
         if fr != out:
-            return ('result-differs-from-pristine-interpreter',
-                    {'job': ji, 'in_history': out[:400], 'pristine': fr[:400], 'history_results': [r[:200] for r in results]})
+            # does this history alone (run from a pristine state) show it, or does it need what the worker did before?
+            alone = fresh_history(jobs)
+            detail = {'job': ji, 'in_history': out[:400], 'pristine': fr[:400],
+                      'history_results': [r[:200] for r in results],
+                      'history_alone_from_pristine_state': [r[:200] for r in alone]}
+            if alone[ji] != fr:
+                return ('result-differs-from-pristine-interpreter', detail)
+            detail['earlier_jobs_of_this_worker_last_30'] = _worker_log[-30:]
+            return ('result-differs-from-pristine-interpreter-after-earlier-histories', detail)
+    _worker_log.extend([j['ctx'], j['s'], j['tolerant'], j.get('db', 'shared')] for j in jobs)
     # (b) the shared databases are what they were
     for n, db in shared:
         d = _first_diff(before[n], fingerprint(db))
@@ -631,10 +655,20 @@ def oracle(c):
             return ('context-database-decodes-differently', {'ctx': n})
     # (c) Inv on every real instance
     for where, key, p in std_instances(shared):
+        if id(p) in already:
+            continue
         r = check_instance(where, key, p)
         if r:
             return r
     return None
+
+
+_worker_log = []
+
+
+def _unfrozen(fp):
+    """a database handed over unfrozen is frozen by LatexWalker.__init__ (by design): mask that one flag"""
+    return [l for l in fp if l not in ('$.frozen = False', '$.frozen = True')]
 
 
 def spell_wire_of(db):
